@@ -134,6 +134,30 @@ fn main() {
             ok = false;
         }
     }
+    // showdowns shared by reference: two threads run every accessor of the same
+    // showdowns at the same time; both must see what a single thread sees
+    {
+        let sp = &specs[0];
+        let collected: Vec<Showdown> = make(sp).collect();
+        let want: Vec<u64> = make(sp).map(|s| digest(&s)).collect();
+        let shared = Arc::new(collected);
+        let hs: Vec<_> = (0..2)
+            .map(|_| {
+                let sh = shared.clone();
+                std::thread::spawn(move || sh.iter().map(digest).collect::<Vec<u64>>())
+            })
+            .collect();
+        for (i, h) in hs.into_iter().enumerate() {
+            if h.join().unwrap() != want {
+                println!("MIRI-C15-DIVERGENCE reader {i} of a shared showdown vector saw other contents than a single thread");
+                ok = false;
+            }
+        }
+        if shared.iter().map(digest).collect::<Vec<u64>>() != want {
+            println!("MIRI-C15-DIVERGENCE shared showdowns changed after being read by two threads");
+            ok = false;
+        }
+    }
     if !ok {
         std::process::exit(1);
     }
